@@ -171,6 +171,36 @@ def check_case(ctx: Ctx, c: dict):
         if extra or missing:
             ctx.violation("all_ids differs from the member set of the specification", c,
                           {"extra": sorted(extra)[:5], "missing": sorted(missing)[:5]}, key="enum-vs-spec")
+    elif k == "enumtail":
+        # one block of a space too large to compare as a list: count and ends of the real enumeration vs the specification
+        import collections
+        cb, u3, b, e = c["cb"], c["u3"], c["b"], c["e"]
+        s = im.IDSpace(cb, u3)
+        u = im.IDSubspace(b, e)
+        it = s.all_ids(u)
+        head = list(itertools.islice(it, 4))
+        tail = collections.deque(head, maxlen=4)
+        n = len(head)
+        last_seen = head[-1] if head else None
+        dup_or_unsorted = False
+        for x in it:
+            n += 1
+            tail.append(x)
+        size = s.subspace_size(u)
+        ctx.count("enumtail-ids", n)
+        if n != size:
+            ctx.violation("subspace_size differs from the number of enumerated ids", c, {"size": size, "enumerated": n}, key="size-vs-enum")
+        for x in head + list(tail):
+            if d.ask(f"spec_member {sp(cb, u3)} {b} {e} {x}") != "1":
+                ctx.violation("all_ids yields a non-member", c, x, key="enum-vs-spec")
+        # the numerically largest member must be enumerated: by nodup + count, a missing member means size-vs-enum fires,
+        # unless something else is enumerated twice — so also require the extreme members at the ends
+        lo = [x for x in range((b << (24 if u3 else 16)), (b << (24 if u3 else 16)) + 600) if d.ask(f"spec_member {sp(cb, u3)} {b} {e} {x}") == "1"][:1]
+        top = ((e - 1) << (24 if u3 else 16)) | ((1 << (24 if u3 else 16)) - 1)
+        if d.ask(f"spec_member {sp(cb, u3)} {b} {e} {top}") == "1" and top not in tail:
+            ctx.violation("all_ids never yields the largest member of the subspace", c, {"largest": top, "tail": list(tail)}, key="enum-vs-spec")
+        if lo and lo[0] not in head:
+            ctx.violation("all_ids does not start with the smallest member of the subspace", c, {"smallest": lo[0], "head": head}, key="enum-vs-spec")
     elif k == "gen":
         cb, u3, b, e = c["cb"], c["u3"], c["b"], c["e"]
         s = im.IDSpace(cb, u3)
@@ -456,6 +486,12 @@ def cases(ctx: Ctx):
         enum.append((24, False, b, e))
     for cb, u3, b, e in enum:
         yield {"k": "enum", "cb": cb, "u3": u3, "b": b, "e": e}
+    # count and ends of one block of the two big spaces (16.7 M / 65 k ids)
+    yield {"k": "enumtail", "cb": 24, "u3": True, "b": 255, "e": 256}
+    yield {"k": "enumtail", "cb": 24, "u3": False, "b": 254, "e": 256}
+    if not quick:
+        yield {"k": "enumtail", "cb": 24, "u3": True, "b": 0, "e": 2}
+        yield {"k": "enumtail", "cb": 24, "u3": False, "b": 0, "e": 256}
     # random generation with scripted draws
     for cb, u3 in SPACES:
         for (b, e) in boundary + rng.sample(subs, 20 if quick else 400):
@@ -490,9 +526,13 @@ def cases(ctx: Ctx):
             n = (b3 << 24) | (b2 << 16) | (b1 << 8) | b0
             if n:
                 ids.add(n)
+        # ids whose subspace byte is 0 / 1 / 255 in every space that allows it
+        for x in (0x000001FE, 0x0000FE01, 0x00010000, 0x00FF0001, 0x01000000, 0xFF000000, 0x01000001, 0xFF0000FF,
+                  0x01000100, 0xFF00FF00, 0x00000001, 0x000000FF, 0x01FFFFFF, 0xFFFFFFFF):
+            ids.add(x)
         qs = []
         for cb, u3 in SPACES:
-            for (b, e) in rng.sample(boundary, 4) + rng.sample(subs, 3):
+            for (b, e) in [(1, 256), (0, 256), (0, 255), (1, 255), (0, 2), (255, 256)] + rng.sample(boundary, 3) + rng.sample(subs, 2):
                 qs.append([cb, u3, b, e])
         yield {"k": "dbfilter", "ids": sorted(ids), "queries": qs}
     for cb, u3 in SPACES:
